@@ -414,8 +414,14 @@ def unit_catalogue(unit):
         if not len(target._underlying):
             return
         agg.evals += 1; agg.transitions += 1; agg.compared += 1; agg.nontrivial += 1
+        # (a vector whose cells are vectors holds them by reference - DESIGN 13.5 - and is not watched)
+        watch = [(o, obs(o)) for o in others if o is not target and not purity.holds_vectors_by_reference(o)]
         try:
-            target[0] = target._underlying[0]
+            target[0] = purity._bump(target._underlying)
+            for o, b in watch:
+                if obs(o) != b:
+                    agg.violation(V(site, "write-observed-through-another-vector", case, b, obs(o)))
+                    return False
         except AliasError:
             shared = any(o is not target and o._underlying is target._underlying for o in others)
             if not shared:
